@@ -109,7 +109,7 @@ func (p *seqPlan) each(ctx *core.Ctx, batch int, fn func(kind, in string)) {
 			}
 		}
 		r := ctx.Rand("hostile-trees")
-		leaves := append(qt.FullLeaves(), qt.HostileLeaves(r, gen.HostileStrings, 40, true)...)
+		leaves := append(qt.FullLeaves(), qt.HostileLeaves(r, gen.ValueDict(r, 200), 60, true)...)
 		for i := 0; i < 400; i++ {
 			t := qt.RandomTree(r, leaves, 1+r.Intn(5))
 			if t.Size() <= 40 {
@@ -123,6 +123,13 @@ func (p *seqPlan) each(ctx *core.Ctx, batch int, fn func(kind, in string)) {
 				continue
 			}
 			for _, in := range hostileInputs(h) {
+				fn("hostile", in)
+			}
+		}
+		// seeded random strings from the combinatorial value classes
+		rv := ctx.Rand("random-values")
+		for i := 0; i < 250; i++ {
+			for _, in := range hostileInputs(gen.RandString(rv)) {
 				fn("hostile", in)
 			}
 		}
